@@ -1,6 +1,7 @@
 package sim
 
 import (
+	"fmt"
 	"sort"
 	"strings"
 )
@@ -352,6 +353,24 @@ func (g *Gen) Hostile() (kind string, body []byte) {
 		}
 		return "undeclared-criterion-value", JSONBytes(b)
 	}
+	if r.Bool(0.04) {
+		// a number given as the string a sloppy client would send ("20" for 20), or as a bool: the
+		// nearest wrong type - a lenient decoder would take it, a strict one refuses; either way
+		// always the same way
+		b := CloneJ(q.Body).(map[string]interface{})
+		var leaves []leafRef
+		collectNumericLeaves(b["methodParameters"], &leaves)
+		collectNumericLeaves(b["biases"], &leaves)
+		if len(leaves) > 0 {
+			lf := leaves[r.Intn(len(leaves))]
+			if r.Bool(0.8) {
+				lf.setAny(fmt.Sprint(lf.get()))
+			} else {
+				lf.setAny(lf.get() != 0)
+			}
+			return "nearby-type:" + lf.name, JSONBytes(b)
+		}
+	}
 	if r.Bool(0.06) {
 		// a key spelt with other letter case (decoders of nested parameters match keys ignoring
 		// case): beside the properly spelt key with another value, or instead of it. Whatever the
@@ -507,8 +526,10 @@ func (g *Gen) Hostile() (kind string, body []byte) {
 }
 
 type leafRef struct {
-	name string
-	set  func(v float64)
+	name   string
+	set    func(v float64)
+	get    func() float64
+	setAny func(v interface{})
 }
 
 // collectNumericLeaves lists every numeric leaf below v in a deterministic order.
@@ -518,7 +539,8 @@ func collectNumericLeaves(v interface{}, out *[]leafRef) {
 		for _, k := range sortedKeys(x) {
 			k := k
 			if _, ok := x[k].(float64); ok {
-				*out = append(*out, leafRef{name: k, set: func(nv float64) { x[k] = nv }})
+				*out = append(*out, leafRef{name: k, set: func(nv float64) { x[k] = nv },
+					get: func() float64 { f, _ := x[k].(float64); return f }, setAny: func(nv interface{}) { x[k] = nv }})
 			} else {
 				collectNumericLeaves(x[k], out)
 			}
@@ -527,7 +549,8 @@ func collectNumericLeaves(v interface{}, out *[]leafRef) {
 		for i := range x {
 			i := i
 			if _, ok := x[i].(float64); ok {
-				*out = append(*out, leafRef{name: "[]", set: func(nv float64) { x[i] = nv }})
+				*out = append(*out, leafRef{name: "[]", set: func(nv float64) { x[i] = nv },
+					get: func() float64 { f, _ := x[i].(float64); return f }, setAny: func(nv interface{}) { x[i] = nv }})
 			} else {
 				collectNumericLeaves(x[i], out)
 			}
